@@ -25,6 +25,7 @@ FALSY_HASH = [None, 0, "", ()]                 # and hashable
 
 NUMERIC_OPS = {"sum", "sum_key", "average", "average_key", "min", "max", "min_cmp", "max_cmp", "min_by", "max_by",
                "reduce", "reduce_seed", "scan", "scan_seed"}
+FRAC_OPS = {"min", "max", "min_cmp", "max_cmp", "min_by", "max_by"}
 COMPARE_OPS = {"distinct_near", "distinct_until_changed_near", "distinct", "distinct_until_changed", "contains", "contains_cmp", "sequence_equal_iter"}
 HASH_OPS = {"to_set", "to_dict"}
 NOTIME_OPS = {"slice", "getitem_int"}   # instants are not part of the slicing statement
@@ -40,6 +41,9 @@ def make_vals(op: str, profile: str, k: int, salt: int) -> Optional[List[Any]]:
         return [{"key": b, "other": t} for t, b in enumerate(base)]
     if op == "dematerialize":
         return None  # built in build() from par.nt
+    if profile == "frac":
+        # real-valued elements / keys that differ by less than 1 (order-only aggregates); None: profile does not apply
+        return [0.25 * t for t in range(k)] if op in FRAC_OPS else None
     if profile == "plain":
         if op in NUMERIC_OPS:
             return list(range(k))
@@ -232,7 +236,8 @@ def build(op: str, par: Dict[str, Any], cod: Codec) -> Tuple[str, tuple, dict]:
     if op in ("sum_key", "average_key"):
         return op[:-4], (table_fn(par["f"], cod, k, lambda r: r, calls),), {}
     if op in ("min_by", "max_by"):
-        return op, (table_fn(par["f"], cod, k, lambda r: r, calls),), {}
+        scale = 0.25 if isinstance(vals[-1], float) else 1       # "frac" profile: keys closer together than 1
+        return op, (table_fn(par["f"], cod, k, lambda r: r * scale, calls),), {}
     if op in ("min_cmp", "max_cmp"):
         return op[:3], ((lambda a, b: b - a) if par["rev"] else (lambda a, b: a - b),), {}
     if op == "to_dict":
